@@ -111,12 +111,24 @@ func mangle(fn *ssa.Function) string {
 		if !ok || n.Obj().Pkg() == nil {
 			return ""
 		}
-		return capFirst(strings.ReplaceAll(path.Base(n.Obj().Pkg().Path()), "-", "_")) + "_" + n.Obj().Name() + "_" + fn.Name()
+		return capFirst(pkgBase(n.Obj().Pkg().Path())) + "_" + n.Obj().Name() + "_" + fn.Name()
 	}
 	if fn.Pkg == nil || fn.Parent() != nil {
 		return ""
 	}
-	return capFirst(strings.ReplaceAll(path.Base(fn.Pkg.Pkg.Path()), "-", "_")) + "_" + fn.Name()
+	return capFirst(pkgBase(fn.Pkg.Pkg.Path())) + "_" + fn.Name()
+}
+
+// pkgBase: last path element as an identifier ("zstdpool-syncpool" ->
+// "zstdpool_syncpool", "yaml.v3" -> "yaml_v3"); a bare major-version element
+// ("github.com/urfave/cli/v2") is skipped.
+func pkgBase(p string) string {
+	b := path.Base(p)
+	if len(b) >= 2 && b[0] == 'v' && strings.Trim(b[1:], "0123456789") == "" {
+		b = path.Base(path.Dir(p))
+	}
+	b = strings.ReplaceAll(b, "-", "_")
+	return strings.ReplaceAll(b, ".", "_")
 }
 
 func (m *modelIndex) lookup(fn *ssa.Function) *ssa.Function {
@@ -592,19 +604,35 @@ func init() {
 	atomicAdd := func(t types.Type) externalFn {
 		return func(fr *frame, a []value) value {
 			p := a[0].(*value)
+			fr.i.raceAcquire(p)
 			*p = binop(token.ADD, t, *p, a[1])
+			fr.i.raceRelease(p)
 			return *p
 		}
 	}
-	atomicLoad := func(fr *frame, a []value) value { return *(a[0].(*value)) }
-	atomicStore := func(fr *frame, a []value) value { *(a[0].(*value)) = a[1]; return nil }
-	atomicSwap := func(fr *frame, a []value) value { p := a[0].(*value); old := *p; *p = a[1]; return old }
+	atomicLoad := func(fr *frame, a []value) value { fr.i.raceAcquire(a[0].(*value)); return *(a[0].(*value)) }
+	atomicStore := func(fr *frame, a []value) value {
+		fr.i.raceAcquire(a[0].(*value))
+		*(a[0].(*value)) = a[1]
+		fr.i.raceRelease(a[0].(*value))
+		return nil
+	}
+	atomicSwap := func(fr *frame, a []value) value {
+		p := a[0].(*value)
+		fr.i.raceAcquire(p)
+		old := *p
+		*p = a[1]
+		fr.i.raceRelease(p)
+		return old
+	}
 	atomicCAS := func(t types.Type) externalFn {
 		return func(fr *frame, a []value) value {
 			p := a[0].(*value)
+			fr.i.raceAcquire(p)
 			eq := fr.i.eqOp(fr, token.EQL, t, *p, a[1])
 			if fr.i.decide(fr, eq) {
 				*p = a[2]
+				fr.i.raceRelease(p)
 				return true
 			}
 			return false
@@ -646,6 +674,7 @@ func init() {
 		},
 		"(*sync.WaitGroup).Done": func(fr *frame, a []value) value {
 			c := fr.i.wg(a[0].(*value))
+			fr.i.raceRelease(c)
 			*c--
 			if *c < 0 {
 				panic(runtimePanic{"sync: negative WaitGroup counter"})
@@ -656,6 +685,7 @@ func init() {
 			c := fr.i.wg(a[0].(*value))
 			fr.i.yieldPoint("wg.Wait")
 			fr.i.block(func() bool { return *c == 0 }, "WaitGroup.Wait")
+			fr.i.raceAcquire(c)
 			return nil
 		},
 		"(*sync.Once).Do": func(fr *frame, a []value) value {
@@ -668,6 +698,9 @@ func init() {
 			if !*d {
 				*d = true
 				call(fr.i, fr, fr.callpos, a[1], nil)
+				fr.i.raceRelease(d)
+			} else {
+				fr.i.raceAcquire(d)
 			}
 			return nil
 		},
